@@ -600,6 +600,58 @@ def loop_must_call(f, call_block):
     return None
 
 
+def loop_leaves_early(f, call_block):
+    """for the innermost loop around call_block: once the call was made in an iteration, can control leave the loop (other
+    than by unwinding) without going back to the header, i.e. end the loop before the iterator is exhausted?  None when not"""
+    from mir import natural_loop
+    best = None
+    for h in sorted(f.reachable()):
+        l_ = natural_loop(f, h)
+        if call_block in l_ and (best is None or len(l_) < len(best[1])):
+            best = (h, l_)
+    if best is None:
+        return "the call is not inside a loop"
+    h, loop = best
+    seen, work = set(), [call_block]
+    while work:
+        x = work.pop()
+        if x in seen:
+            continue
+        seen.add(x)
+        for s_ in f.succs(x):
+            if f.blocks[s_]["cleanup"] or f.blocks[s_]["term"]["k"] == "unreachable" or s_ == h:
+                continue
+            if s_ not in loop:
+                return "the loop can end before every candidate was tried (exit after the block at line %s)" % f.blocks[x]["term"].get("span", {}).get("line")
+            work.append(s_)
+    return None
+
+
+def exact_count_recursive(run, R="MATCH"):
+    """the priority of a match counts the literally spelled parts at *every* nesting depth: the function that computes it (or a
+    closure it owns) calls itself on the match held by a Nested argument, and reads the rule's own exact_part_count"""
+    name = "asm::matcher::get_recursive_exact_part_count"
+    f = run.anchor(R, name)
+    if f is None:
+        return
+    from rules_sym import deep
+    fam = [g for g in run.prog.real_fns() if g.id == f.id or g.id.startswith(f.id + "::{closure")]
+    selfc, own = [], 0
+    for g in fam:
+        for bi, t in g.calls():
+            if (t.get("resolved") or t.get("callee") or "") == f.id:
+                try:
+                    selfc.append(any("@Nested" in str(deep(g, a, d=5)) for a in t["args"]))
+                except Exception:
+                    selfc.append(False)
+        for bi, si, st in g.stmts():
+            if "exact_part_count" in str(st):
+                own += 1
+    ok = bool(selfc) and all(selfc) and own >= 1
+    run.check(ok, R, R + "|exact-count-recursive", f.loc(), "the exact-part count of a match descends into every nested match (self-call on the Nested payload) and adds the rule's own count",
+              "get_recursive_exact_part_count: %d self-call(s) on a Nested argument's match, %d read(s) of exact_part_count: literal parts two or more sub-rule levels deep would no longer count, so a literally spelled operand there stops out-ranking an expression reading of the same text" % (sum(1 for x in selfc if x), own))
+
+
 def exact_count_definition(run, R="MATCH"):
     """the priority key `exact_part_count` of a rule is the number of its Exact pattern parts: a counter that starts at 0 and
     is incremented by 1 only in the Exact arm of the pattern-part match (blanks and parameters do not count)"""
@@ -659,8 +711,9 @@ def candidates_all_matched(run, R="TAB-idx"):
         if ok:
             w1 = loop_must_call(f, cb[0])
             w2 = loop_must_call(f, ex[0])
-            ok = w1 is None and w2 is None
-            why = w1 or w2
+            w3 = loop_leaves_early(f, cb[0])
+            ok = w1 is None and w2 is None and w3 is None
+            why = w1 or w2 or w3
         run.check(ok, R, "%s|all-candidates|%s" % (R, name.rsplit("::", 1)[-1]), f.loc(), "%s tries every candidate rule and keeps every match" % name.rsplit("::", 1)[-1],
                   "%s: %s: a candidate rule could be skipped on one of the two matcher paths only, so --debug-no-optimize-matcher would change the result" % (name, why))
 
